@@ -15,7 +15,7 @@
 EXTENDS Naturals, Sequences, FiniteSets, TLC, Json, IOUtils
 CONSTANTS Export, K
 
-Protos == {"raw", "json", "pb", "thriftbin", "wsjson", "wspb"}
+Protos == {"raw", "json", "pb", "thriftbin", "wsjson", "wspb", "http", "thriftstruct"}
 Classes == [ seq    |-> {"one", "zero", "neg1", "max", "min"},
              mtype  |-> {"1", "2", "3"},
              method |-> {"short", "empty", "len255", "special", "utf8"},
@@ -35,10 +35,27 @@ TextProtos == {"json", "wsjson"}      \* the body travels inside a JSON string
 Supported(p, f, cl) ==
   CASE f = "body" /\ p \in TextProtos -> cl \notin {"control", "nonutf8"}
     [] OTHER -> TRUE
-VecSupported(p, v) == \A f \in Fields : Supported(p, f, v[f])
+\* The HTTP-style protocol (documented: CALL and REPLY only, gzip filter only, body codec through the content type, the
+\* service method is the request path, a reply carries its status -- an error reply carries the status INSTEAD of a body --,
+\* metadata is mapped onto HTTP headers and therefore outside the round-trip claim):
+HttpOK(v) == /\ v.mtype \in {"1", "2"} /\ v.codec \in {"j", "s", "p"} /\ v.pipe \in {"none", "g"} /\ v.meta \in {"none", "one"}
+             /\ (v.mtype = "1" => v.method \in {"short", "len255"} /\ v.status = "nil")
+             /\ (v.mtype = "2" => v.method = "short")
+HttpCompare(v) == {"seq", "mtype", "pipe"} \cup (IF v.mtype = "1" THEN {"method", "body", "codec"}
+                                                  ELSE {"status"} \cup (IF v.status = "nil" THEN {"body", "codec"} ELSE {}))
+\* The thrift struct protocol (documented: the body is a thrift struct encoded in place, metadata supported,
+\* body codec and transfer filters not supported): the harness sends its thrift document type, the body bytes are its blob
+ThriftStructOK(v) == v.codec \in {"j", "nil0"} /\ v.pipe = "none"
+VecSupported(p, v) == CASE p = "http" -> HttpOK(v)
+                        [] p = "thriftstruct" -> ThriftStructOK(v)
+                        [] OTHER -> \A f \in Fields : Supported(p, f, v[f])
+\* the fields the receiver must reproduce (all of them, except where the protocol documents otherwise)
+Compare(p, v) == CASE p = "http" -> HttpCompare(v)
+                   [] p = "thriftstruct" -> Fields \ {"codec"}
+                   [] OTHER -> Fields
 Streamed(p) == p \notin {"wsjson", "wspb"}     \* the websocket sub-protocols are framed by websocket messages
 
-Cases == {[fam |-> "wire", proto |-> p, vec |-> v, chunk |-> ch,
+Cases == {[fam |-> "wire", proto |-> p, vec |-> v, chunk |-> ch, compare |-> Compare(p, v),
            expect |-> IF VecSupported(p, v) THEN "roundtrip" ELSE "unspecified"] :
             p \in Protos, v \in Vectors, ch \in {"one", "mixed", "full"}}
 
